@@ -31,7 +31,14 @@ const WRITER: i64 = 1 << 40;
 
 #[derive(Clone, Debug, Serialize, Deserialize, PartialEq)]
 pub enum COp {
-    Acquire { cell: u8, excl: bool, slot: u8 },
+    Acquire {
+        cell: u8,
+        excl: bool,
+        slot: u8,
+        /// use the typed form (try_fetch / try_fetch_mut) when the cell has dynamic id 0
+        #[serde(default)]
+        typed: bool,
+    },
     Release { slot: u8 },
     Spin { n: u8 },
 }
@@ -40,6 +47,9 @@ pub enum COp {
 pub struct ConcCase {
     pub present: Vec<u8>,
     pub threads: Vec<Vec<COp>>,
+    /// every thread runs its history this many times (0 and 1: once)
+    #[serde(default)]
+    pub reps: u16,
 }
 
 pub struct C08Conc;
@@ -107,9 +117,21 @@ fn selftest_alias() -> bool {
     *ON.get_or_init(|| std::env::var("VERIF_SELFTEST_ALIAS").is_ok())
 }
 
-fn fetch<'a>(world: &'a World, cell: usize, excl: bool) -> Option<Guard<'a>> {
+fn fetch<'a>(world: &'a World, cell: usize, excl: bool, typed: bool) -> Option<Guard<'a>> {
     let id = rid(cell);
     let excl = excl && !selftest_alias();
+    if typed && cell % ND == 0 {
+        return match (cell / ND, excl) {
+            (0, false) => world.try_fetch::<Pair<0>>().map(Guard::S0),
+            (1, false) => world.try_fetch::<Pair<1>>().map(Guard::S1),
+            (2, false) => world.try_fetch::<Pair<2>>().map(Guard::S2),
+            (_, false) => world.try_fetch::<Pair<3>>().map(Guard::S3),
+            (0, true) => world.try_fetch_mut::<Pair<0>>().map(Guard::X0),
+            (1, true) => world.try_fetch_mut::<Pair<1>>().map(Guard::X1),
+            (2, true) => world.try_fetch_mut::<Pair<2>>().map(Guard::X2),
+            (_, true) => world.try_fetch_mut::<Pair<3>>().map(Guard::X3),
+        };
+    }
     match (cell / ND, excl) {
         (0, false) => world.try_fetch_by_id::<Pair<0>>(id).map(Guard::S0),
         (1, false) => world.try_fetch_by_id::<Pair<1>>(id).map(Guard::S1),
@@ -125,14 +147,26 @@ fn fetch<'a>(world: &'a World, cell: usize, excl: bool) -> Option<Guard<'a>> {
 struct Shared {
     /// inside guard life: number of shared guards, WRITER bit for an exclusive one
     shadow: Vec<AtomicI64>,
-    /// outer windows currently open
-    outer_shared: Vec<AtomicI64>,
-    outer_excl: Vec<AtomicI64>,
-    /// bumped whenever an outer window opens
-    epoch_shared: Vec<AtomicU64>,
-    epoch_excl: Vec<AtomicU64>,
+    /// logical clock: every attempt is stamped before the call and after it returned, every guard
+    /// after its drop returned
+    clock: AtomicU64,
     violations: Mutex<Vec<String>>,
     stats: Mutex<(u64, u64, u64)>,
+    /// (thread, op, cell, exclusive, stamp before the call, stamp after the call / after the drop,
+    /// got a guard)
+    log: Mutex<Vec<Attempt>>,
+}
+
+#[derive(Clone, Copy)]
+struct Attempt {
+    thread: usize,
+    op: usize,
+    cell: usize,
+    excl: bool,
+    begin: u64,
+    /// failed attempt: after the call returned; guard: after its drop returned
+    end: u64,
+    ok: bool,
 }
 
 fn atoms_i(n: usize) -> Vec<AtomicI64> {
@@ -151,7 +185,7 @@ impl Prop for C08Conc {
         "C08"
     }
     fn rule(&self) -> &'static str {
-        "2..8 real threads on one &World (4 resource types x 3 dynamic ids, each present or absent), each running its own generated history of try_fetch_by_id / try_fetch_mut_by_id / hold / write / drop with small delays; oracle: harness shadow counters updated strictly inside each guard's life never show an exclusive guard together with any other guard on the same cell; readers always see the writer's two-field invariant intact; None only for absent resources; a panic is accepted only if a conflicting guard's outer window (opened before its fetch call, closed after its drop) was open at the start of the panicking call or opened during it; at the end every cell is free; non-trivial = >= 1 justified panic and >= 1 successful exclusive fetch; distinct = case hash"
+        "2..8 real threads on one &World (4 resource types x 3 dynamic ids, each present or absent), each running its own generated history (repeated 1..64 times) of try_fetch(_mut)_by_id and, on dynamic id 0, the typed try_fetch(_mut) / hold / write / drop with small delays; oracle: harness shadow counters updated strictly inside each guard's life never show an exclusive guard together with any other guard on the same cell; readers always see the writer's two-field invariant intact; None only for absent resources; a panic is accepted only if a conflicting guard that was really handed out has an outer window (stamp before its fetch call .. stamp after its drop, on one logical clock) that overlaps the panicking call's window - failed attempts justify nothing; at the end every cell is free; non-trivial = >= 1 justified panic and >= 1 successful exclusive fetch; distinct = case hash"
     }
     fn stream_len(&self) -> usize {
         400
@@ -170,33 +204,65 @@ impl Prop for C08Conc {
             }
         }
         let nt = 2 + src.pick(7);
+        // one case in four hammers a single present cell through the typed calls without pauses
+        let hammer = src.chance(4, 16);
+        let hammer_cell = (src.pick(NT) * ND) as u8;
+        if hammer && !present.contains(&hammer_cell) {
+            present.push(hammer_cell);
+        }
         // few hot cells so that threads really contend
         let hot = 1 + src.pick(4);
         let threads = (0..nt)
             .map(|_| {
-                let n = src.pick(40);
+                let n = if hammer { 4 + src.pick(12) } else { src.pick(40) };
                 (0..n)
-                    .map(|_| match src.pick(8) {
-                        0 | 1 | 2 | 3 => COp::Acquire {
-                            cell: if src.chance(13, 16) {
-                                src.pick(hot) as u8
+                    .map(|_| {
+                        if hammer {
+                            return if src.chance(10, 16) {
+                                COp::Acquire {
+                                    cell: hammer_cell,
+                                    excl: src.chance(8, 16),
+                                    slot: src.pick(2) as u8,
+                                    typed: true,
+                                }
                             } else {
-                                src.pick(NCELL) as u8
+                                COp::Release {
+                                    slot: src.pick(2) as u8,
+                                }
+                            };
+                        }
+                        match src.pick(8) {
+                            0 | 1 | 2 | 3 => COp::Acquire {
+                                cell: if src.chance(13, 16) {
+                                    src.pick(hot) as u8
+                                } else {
+                                    src.pick(NCELL) as u8
+                                },
+                                excl: src.chance(7, 16),
+                                slot: src.pick(4) as u8,
+                                typed: src.chance(8, 16),
                             },
-                            excl: src.chance(7, 16),
-                            slot: src.pick(4) as u8,
-                        },
-                        4 | 5 | 6 => COp::Release {
-                            slot: src.pick(4) as u8,
-                        },
-                        _ => COp::Spin {
-                            n: src.pick(30) as u8,
-                        },
+                            4 | 5 | 6 => COp::Release {
+                                slot: src.pick(4) as u8,
+                            },
+                            _ => COp::Spin {
+                                n: src.pick(30) as u8,
+                            },
+                        }
                     })
                     .collect()
             })
             .collect();
-        ConcCase { present, threads }
+        let reps = if hammer {
+            100
+        } else {
+            [1u16, 1, 1, 4, 16, 64][src.pick(6)]
+        };
+        ConcCase {
+            present,
+            threads,
+            reps,
+        }
     }
 
     fn check(&self, case: &ConcCase, _lane: usize, st: &mut Stats) -> Result<(), Fail> {
@@ -216,14 +282,13 @@ impl Prop for C08Conc {
             .collect();
         let sh = Arc::new(Shared {
             shadow: atoms_i(NCELL),
-            outer_shared: atoms_i(NCELL),
-            outer_excl: atoms_i(NCELL),
-            epoch_shared: atoms_u(NCELL),
-            epoch_excl: atoms_u(NCELL),
+            clock: AtomicU64::new(1),
             violations: Mutex::new(vec![]),
             stats: Mutex::new((0, 0, 0)),
+            log: Mutex::new(vec![]),
         });
         let nthreads = case.threads.len().clamp(1, 8);
+        let reps = case.reps.clamp(1, 400) as usize;
         let barrier = Arc::new(Barrier::new(nthreads));
         let world_ref = &world;
         std::thread::scope(|scope| {
@@ -233,24 +298,24 @@ impl Prop for C08Conc {
                 let present = present.clone();
                 scope.spawn(move || {
                     barrier.wait();
-                    let mut held: Vec<Option<(usize, bool, Guard)>> = (0..4).map(|_| None).collect();
-                    let (mut justified, mut excl_ok, mut shared_ok) = (0u64, 0u64, 0u64);
-                    let release = |h: &mut Option<(usize, bool, Guard)>, sh: &Shared| {
-                        if let Some((cell, excl, g)) = h.take() {
+                    // slot -> (cell, exclusive, guard, index of its log entry)
+                    let mut held: Vec<Option<(usize, bool, Guard, usize)>> = (0..4).map(|_| None).collect();
+                    let mut log: Vec<Attempt> = vec![];
+                    let (mut excl_ok, mut shared_ok) = (0u64, 0u64);
+                    let release = |h: &mut Option<(usize, bool, Guard, usize)>, sh: &Shared, log: &mut Vec<Attempt>| {
+                        if let Some((cell, excl, g, li)) = h.take() {
                             if excl {
                                 sh.shadow[cell].fetch_and(!WRITER, SeqCst);
                             } else {
                                 sh.shadow[cell].fetch_sub(1, SeqCst);
                             }
                             drop(g);
-                            if excl {
-                                sh.outer_excl[cell].fetch_sub(1, SeqCst);
-                            } else {
-                                sh.outer_shared[cell].fetch_sub(1, SeqCst);
-                            }
+                            log[li].end = sh.clock.fetch_add(1, SeqCst);
                         }
                     };
-                    for (k, op) in ops.iter().enumerate() {
+                    for rep in 0..reps {
+                    for (k0, op) in ops.iter().enumerate() {
+                        let k = rep * ops.len() + k0;
                         match op {
                             COp::Spin { n } => {
                                 for _ in 0..(*n as usize * 20) {
@@ -258,54 +323,24 @@ impl Prop for C08Conc {
                                 }
                             }
                             COp::Release { slot } => {
-                                release(&mut held[*slot as usize % 4], &sh);
+                                release(&mut held[*slot as usize % 4], &sh, &mut log);
                             }
-                            COp::Acquire { cell, excl, slot } => {
+                            COp::Acquire { cell, excl, slot, typed } => {
                                 let cell = *cell as usize % NCELL;
                                 let s = *slot as usize % 4;
-                                release(&mut held[s], &sh);
-                                // what could justify a panic: conflicting outer windows open now or opening during the call
-                                // order matters: an opener bumps `outer` first and `epoch` second, the
-                                // checker reads `epoch` first and `outer` second, so a window that
-                                // opens around these reads is seen by one of the two tests
-                                let ep_excl0 = sh.epoch_excl[cell].load(SeqCst);
-                                let ep_shared0 = sh.epoch_shared[cell].load(SeqCst);
-                                let open_excl0 = sh.outer_excl[cell].load(SeqCst);
-                                let open_shared0 = sh.outer_shared[cell].load(SeqCst);
-                                // open my own outer window
-                                if *excl {
-                                    sh.outer_excl[cell].fetch_add(1, SeqCst);
-                                    sh.epoch_excl[cell].fetch_add(1, SeqCst);
-                                } else {
-                                    sh.outer_shared[cell].fetch_add(1, SeqCst);
-                                    sh.epoch_shared[cell].fetch_add(1, SeqCst);
-                                }
-                                let r = catch_unwind(AssertUnwindSafe(|| fetch(world_ref, cell, *excl)));
-                                let close_outer = |sh: &Shared| {
-                                    if *excl {
-                                        sh.outer_excl[cell].fetch_sub(1, SeqCst);
-                                    } else {
-                                        sh.outer_shared[cell].fetch_sub(1, SeqCst);
-                                    }
-                                };
+                                release(&mut held[s], &sh, &mut log);
+                                let begin = sh.clock.fetch_add(1, SeqCst);
+                                let r = catch_unwind(AssertUnwindSafe(|| fetch(world_ref, cell, *excl, *typed)));
                                 match r {
                                     Err(_) => {
-                                        close_outer(&sh);
-                                        let excl_seen = open_excl0 > 0 || sh.epoch_excl[cell].load(SeqCst) != ep_excl0 + if *excl { 1 } else { 0 };
-                                        let shared_seen = open_shared0 > 0 || sh.epoch_shared[cell].load(SeqCst) != ep_shared0 + if *excl { 0 } else { 1 };
-                                        let ok = if *excl { excl_seen || shared_seen } else { excl_seen };
+                                        let end = sh.clock.fetch_add(1, SeqCst);
                                         if !present[cell] {
                                             sh.violations.lock().unwrap().push(format!(
                                                 "thread {} op {}: fetching the absent cell {} panicked instead of returning None", ti, k, cell));
-                                        } else if !ok {
-                                            sh.violations.lock().unwrap().push(format!(
-                                                "thread {} op {}: {} fetch of cell {} panicked although no conflicting guard existed at any time during the call", ti, k, if *excl { "exclusive" } else { "shared" }, cell));
-                                        } else {
-                                            justified += 1;
                                         }
+                                        log.push(Attempt { thread: ti, op: k, cell, excl: *excl, begin, end, ok: false });
                                     }
                                     Ok(None) => {
-                                        close_outer(&sh);
                                         if present[cell] {
                                             sh.violations.lock().unwrap().push(format!(
                                                 "thread {} op {}: None for the present cell {} (None is only for absent resources)", ti, k, cell));
@@ -337,22 +372,51 @@ impl Prop for C08Conc {
                                             sh.violations.lock().unwrap().push(format!(
                                                 "thread {} op {}: cell {} seen with a torn value ({}, {}): a writer is active while this guard is alive", ti, k, cell, a, b));
                                         }
-                                        held[s] = Some((cell, *excl, g));
+                                        log.push(Attempt { thread: ti, op: k, cell, excl: *excl, begin, end: u64::MAX, ok: true });
+                                        held[s] = Some((cell, *excl, g, log.len() - 1));
                                     }
                                 }
                             }
                         }
                     }
+                    }
                     for h in held.iter_mut() {
-                        release(h, &sh);
+                        release(h, &sh, &mut log);
                     }
                     let mut st = sh.stats.lock().unwrap();
-                    st.0 += justified;
                     st.1 += excl_ok;
                     st.2 += shared_ok;
+                    sh.log.lock().unwrap().extend(log);
                 });
             }
         });
+        // a panic needs a reason: a conflicting guard (somebody really got it) whose outer window
+        // [stamp before its fetch call, stamp after its drop] overlaps the failed call's window. A
+        // failed attempt holds nothing and justifies nothing.
+        {
+            let log = sh.log.lock().unwrap();
+            let mut by_cell: Vec<Vec<&Attempt>> = (0..NCELL).map(|_| vec![]).collect();
+            for a in log.iter().filter(|a| a.ok) {
+                by_cell[a.cell].push(a);
+            }
+            let mut justified = 0u64;
+            for f in log.iter().filter(|a| !a.ok) {
+                if !present[f.cell] {
+                    continue;
+                }
+                let ok = by_cell[f.cell].iter().any(|g| {
+                    (g.excl || f.excl) && !(g.thread == f.thread && g.op == f.op) && g.begin < f.end && g.end > f.begin
+                });
+                if ok {
+                    justified += 1;
+                } else {
+                    sh.violations.lock().unwrap().push(format!(
+                        "thread {} op {}: {} fetch of cell {} panicked although nobody held a conflicting guard at any time during the call (only guards that were really handed out count; a failed attempt holds nothing)",
+                        f.thread, f.op, if f.excl { "exclusive" } else { "shared" }, f.cell));
+                }
+            }
+            sh.stats.lock().unwrap().0 += justified;
+        }
         let v = sh.violations.lock().unwrap().clone();
         if let Some(first) = v.first() {
             return Err(Fail::new(format!("{} ({} violation(s) in this run)", first, v.len())));
@@ -371,6 +435,9 @@ impl Prop for C08Conc {
         st.class_n("exclusive_guards", x);
         st.class_n("shared_guards", s);
         st.class(&format!("threads_{}", nthreads));
+        if reps >= 100 {
+            st.class("hammer_cases_one_cell_typed_calls_100_repetitions");
+        }
         if j > 0 && x > 0 {
             st.nontrivial(case, || json!({"justified_panics": j, "exclusive": x, "shared": s}));
         }
